@@ -5148,6 +5148,46 @@ where
 // deserialization from the vertices and cells data.
 
 // =============================================================================
+// VERIFICATION HOOKS (feature "verif-hooks"; off by default)
+// =============================================================================
+
+/// Raw mutable accessors used by the external verification harness for fault injection.
+/// They bypass every invariant (no generation bump, no mapping upkeep) on purpose and
+/// exist only with the `verif-hooks` feature.
+#[cfg(feature = "verif-hooks")]
+impl<T, U, V, const D: usize> Tds<T, U, V, D>
+where
+    U: DataType,
+    V: DataType,
+{
+    /// Raw cell storage.
+    pub const fn verif_cells_raw_mut(&mut self) -> &mut StorageMap<CellKey, Cell<T, U, V, D>> {
+        &mut self.cells
+    }
+
+    /// Raw vertex storage.
+    pub const fn verif_vertices_raw_mut(&mut self) -> &mut StorageMap<VertexKey, Vertex<T, U, D>> {
+        &mut self.vertices
+    }
+
+    /// Raw vertex UUID -> key map.
+    pub const fn verif_uuid_to_vertex_key_mut(&mut self) -> &mut UuidToVertexKeyMap {
+        &mut self.uuid_to_vertex_key
+    }
+
+    /// Raw cell UUID -> key map.
+    pub const fn verif_uuid_to_cell_key_mut(&mut self) -> &mut UuidToCellKeyMap {
+        &mut self.uuid_to_cell_key
+    }
+
+    /// `true` iff `self` and `other` share one generation counter allocation.
+    #[must_use]
+    pub fn verif_shares_generation_with(&self, other: &Self) -> bool {
+        Arc::ptr_eq(&self.generation, &other.generation)
+    }
+}
+
+// =============================================================================
 // TESTS
 // =============================================================================
 
